@@ -221,51 +221,26 @@ Definition mergesort_model (key : option val) (reverse presorted : bool) (missin
       end
   end.
 
-(* issorted(table, key, reverse, strict) *)
+(* issorted(table, key, reverse, strict) — as repaired: rows are compared through comparable_itemgetter over the key
+   indices (all header positions when key is None); a table without data rows is sorted *)
 Definition issorted_model (key : option val) (reverse strict : bool) (t : table) : res bool :=
   let op := fun (c p : val) =>
-    (* op(curr, prev) on Comparable keys *)
     if reverse then (if strict then clt c p else cle c p) else (if strict then cgt c p else cge c p) in
-  match t with
-  | [] => Err StopIter
-  | hdr :: rows =>
-      match key with
-      | None =>
-          (* raw row comparison *)
-          match rows with
-          | [] => Err StopIter
-          | r0 :: rest =>
-              (fix go (prev : row) (l : list row) : res bool :=
+  let '(hdr, rows) := match t with [] => ([], []) | h :: r => (h, r) end in
+  match (match key with Some k => asindices (map hdr_text hdr) k | None => Ok (zrange (length hdr) 0) end) with
+  | Err e => Err e
+  | Ok idx =>
+      match rows with
+      | [] => Ok true
+      | r0 :: rest =>
+          match idx with
+          | [] => Err TypeErr
+          | _ =>
+              (fix go (prevkey : val) (l : list row) : res bool :=
                  match l with
                  | [] => Ok true
-                 | c :: t =>
-                     let r := if reverse then (if strict then py_lt (VSeq false c) (VSeq false prev)
-                                               else match py_lt (VSeq false prev) (VSeq false c) with
-                                                    | Some b => Some (negb b) | None => None end)
-                              else (if strict then py_lt (VSeq false prev) (VSeq false c)
-                                    else match py_lt (VSeq false c) (VSeq false prev) with
-                                         | Some b => Some (negb b) | None => None end) in
-                     match r with
-                     | None => Err TypeErr
-                     | Some false => Ok false
-                     | Some true => go c t
-                     end
-                 end) r0 rest
-          end
-      | Some k =>
-          match asindices (map hdr_text hdr) k with
-          | Err e => Err e
-          | Ok [] => Err TypeErr
-          | Ok idx =>
-              match rows with
-              | [] => Err StopIter
-              | r0 :: rest =>
-                  (fix go (prevkey : val) (l : list row) : res bool :=
-                     match l with
-                     | [] => Ok true
-                     | c :: t => if op (getkey idx c) prevkey then go (getkey idx c) t else Ok false
-                     end) (getkey idx r0) rest
-              end
+                 | c :: t => if op (getkey idx c) prevkey then go (getkey idx c) t else Ok false
+                 end) (getkey idx r0) rest
           end
       end
   end.
